@@ -549,6 +549,7 @@ func (e *Engine) installSpecObjs(pkg *types.Package) {
 	mk("radixGet", []types.Type{anyT, types.Typ[types.String]}, anyT, false)
 	mk("timeBefore", []types.Type{anyT, anyT}, boolT, false)
 	mk("lastRPCErr", nil, types.Universe.Lookup("error").Type(), false)
+	mk("rpcFails", nil, types.Typ[types.Int], false)
 	if tp := e.pkgs["time"]; tp != nil {
 		if tt := tp.Types.Scope().Lookup("Time"); tt != nil {
 			mk("lastNow", nil, tt.Type(), false)
